@@ -52,8 +52,171 @@ func init() {
 		w.P("/-- streams_map_incoming.go / streams_map_outgoing.go: does the method lock `mutex` in its first statement? -/")
 		w.P("def lockAtEntry : List (String × Bool) := [%s]", strings.Join(rows, ", "))
 		w.P("def allLockAtEntry : Bool := %v", all)
-		return nil
+		if err := emitCoverSources(c, w); err != nil {
+			return err
+		}
+		return emitSkipGuards(c, w)
 	})
+}
+
+// emitCoverSources: in u_connection.go configCoveringAdvertised, which transport-parameter fields (p.X)
+// feed the assignments to c.MaxIncomingStreams and c.MaxIncomingUniStreams.
+func emitCoverSources(c *Ctx, w *LeanFile) error {
+	af, err := parser.ParseFile(c.Fset, filepath.Join(c.Repo, "u_connection.go"), nil, 0)
+	if err != nil {
+		return err
+	}
+	var fd *ast.FuncDecl
+	for _, d := range af.Decls {
+		if f, ok := d.(*ast.FuncDecl); ok && f.Name.Name == "configCoveringAdvertised" && f.Body != nil {
+			fd = f
+		}
+	}
+	if fd == nil {
+		return fmt.Errorf("configCoveringAdvertised not found in u_connection.go")
+	}
+	src := map[string][]string{}
+	keepsOwn := map[string]bool{}
+	for _, st := range fd.Body.List {
+		as, ok := st.(*ast.AssignStmt)
+		if !ok || len(as.Lhs) != 1 || len(as.Rhs) != 1 {
+			continue
+		}
+		lhs, ok := as.Lhs[0].(*ast.SelectorExpr)
+		if !ok {
+			continue
+		}
+		name := lhs.Sel.Name
+		if name != "MaxIncomingStreams" && name != "MaxIncomingUniStreams" {
+			continue
+		}
+		isMax := false
+		if call, ok := as.Rhs[0].(*ast.CallExpr); ok {
+			if id, ok := call.Fun.(*ast.Ident); ok && id.Name == "max" {
+				isMax = true
+			}
+		}
+		ast.Inspect(as.Rhs[0], func(n ast.Node) bool {
+			if se, ok := n.(*ast.SelectorExpr); ok {
+				if id, ok := se.X.(*ast.Ident); ok {
+					if id.Name == "p" {
+						src[name] = append(src[name], se.Sel.Name)
+					}
+					if id.Name == "c" && se.Sel.Name == name && isMax {
+						keepsOwn[name] = true
+					}
+				}
+			}
+			return true
+		})
+	}
+	q := func(l []string) string {
+		var o []string
+		for _, x := range l {
+			o = append(o, fmt.Sprintf("%q", x))
+		}
+		return "[" + strings.Join(o, ", ") + "]"
+	}
+	if len(src["MaxIncomingStreams"]) == 0 || len(src["MaxIncomingUniStreams"]) == 0 {
+		return fmt.Errorf("configCoveringAdvertised: assignments to MaxIncomingStreams / MaxIncomingUniStreams not found")
+	}
+	w.P("/-- u_connection.go configCoveringAdvertised: the enforced bidi limit is `max(Config value, p.<these>)` -/")
+	w.P("def coverBidiSources : List String := %s", q(src["MaxIncomingStreams"]))
+	w.P("def coverUniSources : List String := %s", q(src["MaxIncomingUniStreams"]))
+	w.P("/-- … and the assignments have the form `c.X = max(c.X, …)` -/")
+	w.P("def coverKeepsConfig : Bool := %v", keepsOwn["MaxIncomingStreams"] && keepsOwn["MaxIncomingUniStreams"])
+	return nil
+}
+
+// emitSkipGuards: connection.go handleFrames — does each branch of the frame dispatch (STREAM, ACK,
+// DATAGRAM, everything else) contain `if skipHandling { continue }` before it handles the frame?
+func emitSkipGuards(c *Ctx, w *LeanFile) error {
+	af, err := parser.ParseFile(c.Fset, filepath.Join(c.Repo, "connection.go"), nil, 0)
+	if err != nil {
+		return err
+	}
+	var fd *ast.FuncDecl
+	for _, d := range af.Decls {
+		if f, ok := d.(*ast.FuncDecl); ok && f.Name.Name == "handleFrames" && f.Body != nil {
+			fd = f
+		}
+	}
+	if fd == nil {
+		return fmt.Errorf("handleFrames not found in connection.go")
+	}
+	guards := map[string]bool{}
+	seen := map[string]bool{}
+	hasGuard := func(b *ast.BlockStmt) bool {
+		for _, st := range b.List {
+			is, ok := st.(*ast.IfStmt)
+			if !ok {
+				continue
+			}
+			if id, ok := is.Cond.(*ast.Ident); !ok || id.Name != "skipHandling" {
+				continue
+			}
+			for _, bs := range is.Body.List {
+				if br, ok := bs.(*ast.BranchStmt); ok && br.Tok.String() == "continue" {
+					return true
+				}
+			}
+		}
+		return false
+	}
+	condName := func(e ast.Expr) string {
+		if call, ok := e.(*ast.CallExpr); ok {
+			if se, ok := call.Fun.(*ast.SelectorExpr); ok {
+				switch se.Sel.Name {
+				case "IsStreamFrameType":
+					return "stream"
+				case "IsAckFrameType":
+					return "ack"
+				case "IsDatagramFrameType":
+					return "datagram"
+				}
+			}
+		}
+		return ""
+	}
+	ast.Inspect(fd.Body, func(n ast.Node) bool {
+		is, ok := n.(*ast.IfStmt)
+		if !ok || condName(is.Cond) != "stream" {
+			return true
+		}
+		for cur := is; cur != nil; {
+			name := condName(cur.Cond)
+			if name != "" {
+				seen[name] = true
+				guards[name] = hasGuard(cur.Body)
+			}
+			switch e := cur.Else.(type) {
+			case *ast.IfStmt:
+				cur = e
+			case *ast.BlockStmt:
+				seen["other"] = true
+				guards["other"] = hasGuard(e)
+				cur = nil
+			default:
+				cur = nil
+			}
+		}
+		return false
+	})
+	var rows []string
+	all := true
+	for _, k := range []string{"stream", "ack", "datagram", "other"} {
+		if !seen[k] {
+			return fmt.Errorf("handleFrames: dispatch branch %q not found", k)
+		}
+		if !guards[k] {
+			all = false
+		}
+		rows = append(rows, fmt.Sprintf("(%q, %v)", k, guards[k]))
+	}
+	w.P("/-- connection.go handleFrames: branch ↦ contains `if skipHandling { continue }` -/")
+	w.P("def skipGuards : List (String × Bool) := [%s]", strings.Join(rows, ", "))
+	w.P("def allSkipGuards : Bool := %v", all)
+	return nil
 }
 
 func recvName(fd *ast.FuncDecl) string {
